@@ -38,7 +38,7 @@ theorem setSignal_closedE {p : Prog} {s : State} (h : InvR p s) (f : Nat) (hf : 
 /-! ## the convergence invariant -/
 
 /-- the body of effect `i` does not write -/
-def RO (p : Prog) (i : Nat) : Prop :=
+def NoFB (p : Prog) (i : Nat) : Prop :=
   ∀ sg y, (bodyOf p i).writesSig sg = true → (bodyOf p i).readsNode y = true →
     dependsOn p p.length y sg = false
 
@@ -60,13 +60,13 @@ theorem writesSig_of_noWrite : ∀ (e : Expr) (sg : Nat), e.noWrite = true → e
     simp [Expr.writesSig, writesSig_of_noWrite a sg h.1, writesSig_of_noWrite b sg h.2]
   | .wr _ _, _, h => by simp [Expr.noWrite] at h
 
-theorem RO.of_noWrite {p : Prog} {i : Nat} (h : (bodyOf p i).noWrite = true) : RO p i := by
+theorem NoFB.of_noWrite {p : Prog} {i : Nat} (h : (bodyOf p i).noWrite = true) : NoFB p i := by
   intro sg y hw
   rw [writesSig_of_noWrite _ sg h] at hw; cases hw
 
 /-- obligations of a non-running effect that is not the one being polled -/
 structure EffC (p : Prog) (s : State) (i : Nat) : Prop where
-  vals : RO p i → (s.get i).dirty = false → ∀ z ∈ (s.get i).seen,
+  vals : NoFB p i → (s.get i).dirty = false → ∀ z ∈ (s.get i).seen,
     (s.get z.1).running = true ∨ (s.get z.1).val = some z.2.1
   quietFlags : (s.get i).chan = false → (s.get i).dirty = false ∧ (s.get i).first = false
   chanWoken : (s.get i).chan = true → (s.get i).woken = true
@@ -307,7 +307,7 @@ theorem evalEff_gen2 {p : Prog} {u : State → Nat → State × Bool} {f : Nat} 
 structure RunLocC (p : Prog) (s : State) (e : Nat) : Prop where
   live : (s.get e).alive = true ∧ (s.get e).paused = false ∧ (s.get e).done = false
   srcSeen : (s.get e).sources = (s.get e).seen.map (·.1)
-  seenRO : RO p e → ∀ z ∈ (s.get e).seen, (s.get z.1).st = .clean ∧ (s.get z.1).val = some z.2.1
+  seenNF : NoFB p e → ∀ z ∈ (s.get e).seen, (s.get z.1).st = .clean ∧ (s.get z.1).val = some z.2.1
   closed : (s.get e).chan = false → ∀ z ∈ (s.get e).seen, (s.get z.1).kind = .memo →
     (s.get z.1).st = .clean
   dc : (s.get e).dirty = true → (s.get e).chan = true
@@ -436,7 +436,7 @@ theorem hreadC {p : Prog} {u : State → Nat → State × Bool} {f : Nat} (hu : 
       rw [hsrc2, hseen2, hq.self.srcSeen]; simp
     · intro hro z hz
       rcases mem3 z hz with hz | rfl
-      · have := hq.self.seenRO hro z hz
+      · have := hq.self.seenNF hro z hz
         have c := old_clean z.1 this.1
         exact ⟨c.1, c.2.trans this.2⟩
       · exact ⟨by rw [(f3 x).2.2.1]; exact hcx, by rw [(f3 x).2.1]; exact hvx⟩
@@ -499,7 +499,7 @@ theorem hwriteC {p : Prog} {e : Nat} (F : Nat) (hF : p.length ≤ F)
   · -- the effect does not write upstream of anything it has read: its entries are untouched
     intro hro z hz
     rw [cf.2.2.2.2.2.2.1] at hz
-    have old := hq.self.seenRO hro z hz
+    have old := hq.self.seenNF hro z hz
     have hsrc : z.1 ∈ (s.get e).sources := by rw [hq.self.srcSeen]; exact List.mem_map_of_mem hz
     have hrz : (bodyOf p e).readsNode z.1 = true := hq.ss e z.1 hsrc
     have hnd : dependsOn p p.length z.1 x = false := hro x z.1 hW hrz
@@ -552,13 +552,22 @@ theorem hwriteC {p : Prog} {e : Nat} (F : Nat) (hF : p.length ≤ F)
 structure TopC (p : Prog) (s : State) : Prop where
   quiet : Quiet p s
   conv : InvC p s none
+  ss : SrcStatic p s
+
+theorem SrcStatic.updFlag {p : Prog} {s : State} (h : SrcStatic p s) (i : Nat) (g : Node → Node)
+    (hg : ∀ n, (g n).sources = n.sources) : SrcStatic p (s.upd i g) :=
+  h.mono (fun w y hy => by
+    rw [State.get_upd] at hy
+    split at hy
+    · rw [hg] at hy; exact hy
+    · exact hy)
 
 theorem InvC.weaken {p : Prog} {s : State} (h : InvC p s none) (X : Option Nat) : InvC p s X :=
   ⟨h.base, fun i hk hr _ => h.eff i hk hr (by simp)⟩
 
 /-- the polled effect `e`: everything but `chan → woken` -/
 structure BusyC (p : Prog) (s : State) (e : Nat) : Prop where
-  vals : RO p e → (s.get e).dirty = false → ∀ z ∈ (s.get e).seen,
+  vals : NoFB p e → (s.get e).dirty = false → ∀ z ∈ (s.get e).seen,
     (s.get z.1).running = true ∨ (s.get z.1).val = some z.2.1
   quietFlags : (s.get e).chan = false → (s.get e).dirty = false ∧ (s.get e).first = false
   srcClean : (s.get e).chan = false → ∀ y ∈ (s.get e).sources, (s.get y).kind = .memo →
@@ -610,7 +619,7 @@ theorem InvC.congrE {p : Prog} {s s' : State} (e : Nat) (hI : InvR p s)
 
 /-- the polled effect during the walk over its sources -/
 structure WalkSelf (p : Prog) (s : State) (e : Nat) : Prop where
-  vals : RO p e → (s.get e).dirty = false → ∀ z ∈ (s.get e).seen,
+  vals : NoFB p e → (s.get e).dirty = false → ∀ z ∈ (s.get e).seen,
     (s.get z.1).running = true ∨ (s.get z.1).val = some z.2.1
   dc : (s.get e).dirty = true → (s.get e).chan = true
   cw : (s.get e).chan = true → (s.get e).woken = true
@@ -672,11 +681,12 @@ structure WalkPost (p : Prog) (s : State) (e : Nat) (l : List Nat) (r : State ×
   base : EffB r.1 e
   core : (r.1.get e).core = (s.get e).core
   allClean : r.2 = false → ∀ x ∈ l, (s.get x).kind = .memo → (r.1.get x).st = .clean
+  ss : SrcStatic p s → SrcStatic p r.1
 
 theorem walk_specC {p : Prog} {u : State → Nat → State × Bool} {f : Nat} (hu : UpdOK p u f)
     (e : Nat) : ∀ (l : List Nat) (s : State), (∀ x ∈ l, x < f) → Quiet p s → InvC p s (some e) →
       (s.get e).kind = .eff → EffB s e → WalkSelf p s e → WalkPost p s e l (anySrc u false e l s)
-  | [], s, _, hq, hc, _, hb, hw => ⟨hq, hc, fun _ => rfl, hw, hb, rfl, fun _ _ hx => by cases hx⟩
+  | [], s, _, hq, hc, _, hb, hw => ⟨hq, hc, fun _ => rfl, hw, hb, rfl, fun _ _ hx => (by cases hx), fun h => h⟩
   | x :: l, s, hl, hq, hc, hk, hb, hw => by
     have up := hu s x hq.inv (hl x List.mem_cons_self) (hq.idle x)
       (fun r hr => by rw [hq.idle r] at hr; cases hr)
@@ -690,11 +700,11 @@ theorem walk_specC {p : Prog} {u : State → Nat → State × Bool} {f : Nat} (h
     have b1 : EffB s1 e := hb.of_core (up.frame.effCore e hk)
     simp only
     split
-    · exact ⟨q1, c1, up.frame.kind, w1, b1, up.frame.effCore e hk, fun hc' => by cases hc'⟩
+    · exact ⟨q1, c1, up.frame.kind, w1, b1, up.frame.effCore e hk, fun hc' => (by cases hc'), up.ss⟩
     · have ih := walk_specC hu e l s1 (fun y hy => hl y (List.mem_cons_of_mem _ hy)) q1 c1
         (by rw [up.frame.kind]; exact hk) b1 w1
       refine ⟨ih.quiet, ih.conv, fun i => (ih.kind i).trans (up.frame.kind i), ih.self, ih.base,
-        ih.core.trans (up.frame.effCore e hk), ?_⟩
+        ih.core.trans (up.frame.effCore e hk), ?_, fun h => ih.ss (up.ss h)⟩
       intro hfalse y hy hky
       rcases List.mem_cons.1 hy with rfl | hy
       · -- `y` was cleaned by its own `upd` and stays clean
@@ -728,15 +738,16 @@ structure EffUpdPostC (p : Prog) (s3 : State) (e : Nat) (need : Bool) : Prop whe
   base : EffB s3 e
   clean : (s3.get e).dirty = false
   cw : (s3.get e).chan = true → (s3.get e).woken = true
-  ready : need = false → (RO p e → ∀ z ∈ (s3.get e).seen,
+  ss : SrcStatic p s3
+  ready : need = false → (NoFB p e → ∀ z ∈ (s3.get e).seen,
       (s3.get z.1).running = true ∨ (s3.get z.1).val = some z.2.1) ∧
     ∀ y ∈ (s3.get e).sources, (s3.get y).kind = .memo → (s3.get y).st = .clean
 
 theorem effUpdate_specC {p : Prog} {f : Nat} (hu : UpdOK p (upd p f) f) (hf : p.length ≤ f)
     {s : State} {e : Nat} (hq : Quiet p s) (hc : InvC p s (some e)) (hk : (s.get e).kind = .eff)
-    (hvals : RO p e → (s.get e).dirty = false → ∀ z ∈ (s.get e).seen,
+    (hvals : NoFB p e → (s.get e).dirty = false → ∀ z ∈ (s.get e).seen,
       (s.get z.1).running = true ∨ (s.get z.1).val = some z.2.1)
-    (hchan : (s.get e).chan = false) :
+    (hchan : (s.get e).chan = false) (hss : SrcStatic p s) :
     EffUpdPostC p ({ (effUpdate p f { s with obs := some e } e).1 with obs := none }) e
       (effUpdate p f { s with obs := some e } e).2 := by
   have hobs := hq.obs
@@ -756,7 +767,7 @@ theorem effUpdate_specC {p : Prog} {f : Nat} (hu : UpdOK p (upd p f) f) (hf : p.
     have ge : (s.upd e fun n => { n with dirty := false }).get e = { s.get e with dirty := false } :=
       State.get_upd_same _ _ he
     exact ⟨q', c', hk', b', by rw [ge], (by rw [ge]; intro hc'; rw [hchan] at hc'; cases hc'),
-      fun hn => by cases hn⟩
+      hss.updFlag e _ (fun _ => rfl), fun hn => by cases hn⟩
   | false =>
     rw [effUpdate_clean p f { s with obs := some e } e hd]
     have e0 : ({ ({ s with obs := some e } : State) with obs := none } : State) = s :=
@@ -791,7 +802,8 @@ theorem effUpdate_specC {p : Prog} {f : Nat} (hu : UpdOK p (upd p f) f) (hf : p.
       intro y; by_cases hy : y = e
       · subst hy; rw [ge]; exact ⟨rfl, rfl, rfl, rfl⟩
       · rw [go y hy]; exact ⟨rfl, rfl, rfl, rfl⟩
-    refine ⟨q', c', hk', b', by rw [ge], (by rw [ge]; exact hw.self.cw), ?_⟩
+    refine ⟨q', c', hk', b', by rw [ge], (by rw [ge]; exact hw.self.cw),
+      (hw.ss hss).updFlag e _ (fun _ => rfl), ?_⟩
     intro hneed
     have hany : any = false := by
       cases any with
@@ -817,7 +829,7 @@ theorem effUpdate_specC {p : Prog} {f : Nat} (hu : UpdOK p (upd p f) f) (hf : p.
 theorem effRun_specC {p : Prog} {f : Nat} (hu : UpdOK p (upd p f) f) (hf : p.length < f)
     (hpe : EffOK p) {s : State} {e : Nat} (hq : Quiet p s) (hc : InvC p s (some e))
     (hk : (s.get e).kind = .eff) (hd : (s.get e).dirty = false)
-    (hcw : (s.get e).chan = true → (s.get e).woken = true) :
+    (hcw : (s.get e).chan = true → (s.get e).woken = true) (hss : SrcStatic p s) :
     TopC p (effRun p f s e none) ∧ ((effRun p f s e none).get e).kind = .eff := by
   have he : e < s.nodes.length := s.lt_of_kind_ne (by rw [hk]; simp)
   have hep : e < p.length := by rw [← hq.inv.len]; exact he
@@ -886,10 +898,14 @@ theorem effRun_specC {p : Prog} {f : Nat} (hu : UpdOK p (upd p f) f) (hf : p.len
     · intro y hky
       have hy : y ≠ e := by intro hc'; subst hc'; exact hky hk
       rw [g4o' y hy]; exact ⟨rfl, rfl, rfl⟩
+  have ss4 : SrcStatic p s4 := hss.mono (fun w y hy => by
+    by_cases hw : w = e
+    · subst hw; rw [g4e, t.gm] at hy; cases hy
+    · rw [g4o' w hw] at hy; exact hy)
   have q4 : QC p s4 e := by
     refine ⟨c4, ⟨(by rw [g4e, t.gm, g1e]; exact hb.live), (by rw [g4e, t.gm]; rfl),
       fun _ z hz => (by rw [g4e] at hz; cases hz), fun _ z hz => (by rw [g4e] at hz; cases hz), ?_, ?_,
-      (by rw [g4e, t.gm, g1e]), (by rw [g4e]; exact Nat.succ_ne_zero _)⟩⟩
+      (by rw [g4e, t.gm, g1e]), (by rw [g4e]; exact Nat.succ_ne_zero _)⟩, ss4⟩
     · intro hd4
       rw [g4e, t.gm, g1e] at hd4
       rw [hd] at hd4; cases hd4
@@ -909,12 +925,13 @@ theorem effRun_specC {p : Prog} {f : Nat} (hu : UpdOK p (upd p f) f) (hf : p.len
   have hbo : bodyOf p e = b := by simp only [bodyOf, hb']
   have ev := evalEff_spec hu (by omega) f (by omega) (bodyOf p e) s4 h4 l4
     (by rw [hbo]; exact hbody.1) (by rw [hbo]; exact hbody.2.1) (by rw [hbo]; exact hbody.2.2)
-  have evq := evalEff_gen2 hu (e := e) (by omega) f (by omega) (fun s => QC p s e) (¬ RO p e)
-    (fun s x h' hl' hq' hx hkx => hreadC hu (by omega) s x h' hl' hq' hx hkx)
-    (fun hnw s x v0 v h' hl' hq' hx => hwriteC f (by omega) hnw s x v0 v h' hl' hq' hx)
+  have evq := evalEff_gen2 hu (e := e) (by omega) f (by omega) (fun s => QC p s e)
+    (fun y => (bodyOf p e).readsNode y = true) (fun sg => (bodyOf p e).writesSig sg = true)
+    (fun s x hrx h' hl' hq' hx hkx => hreadC hu (by omega) s x hrx h' hl' hq' hx hkx)
+    (fun s x v0 v hW h' hl' hq' hx => hwriteC f (by omega) s x v0 v hW h' hl' hq' hx)
     (bodyOf p e) s4 h4 l4 q4
     (by rw [hbo]; exact hbody.1) (by rw [hbo]; exact hbody.2.1) (by rw [hbo]; exact hbody.2.2)
-    (fun hnw hro => by unfold RO at hro; rw [hnw] at hro; cases hro)
+    (fun _ hy => hy) (fun _ hy => hy)
   generalize evalE (readNode (upd p f)) (setSignal f) e (bodyOf p e) s4 = r at ev evq
   obtain ⟨s8, v⟩ := r
   simp only at ev evq ⊢
@@ -954,14 +971,18 @@ theorem effRun_specC {p : Prog} {f : Nat} (hu : UpdOK p (upd p f) f) (hf : p.len
     intro z hz hze
     have : z.1 ∈ (s8.get e).sources := by rw [sl.srcSeen]; exact List.mem_map_of_mem hz
     exact h8.srcData e z.1 this (by rw [hze]; exact l8.kind)
-  refine ⟨⟨⟨h10, idle10⟩, c10.close (fun _ => ?_)⟩, by rw [g10e]; exact l8.kind⟩
+  have ss10 : SrcStatic p s10 := evq.ss.mono (fun w y hy => by
+    by_cases hw : w = e
+    · subst hw; rw [g10e] at hy; exact hy
+    · rw [g10o w hw] at hy; exact hy)
+  refine ⟨⟨⟨h10, idle10⟩, c10.close (fun _ => ?_), ss10⟩, by rw [g10e]; exact l8.kind⟩
   refine ⟨?_, ?_, ?_, ?_⟩
   · intro hro hd10 z hz
     rw [g10e] at hz
     have hz' : z ∈ (s8.get e).seen := hz
     right
     rw [g10o z.1 (data_ne z hz')]
-    exact (sl.seenRO hro z hz').2
+    exact (sl.seenNF hro z hz').2
   · intro hc10
     rw [g10e] at hc10 ⊢
     have hc8 : (s8.get e).chan = false := hc10
@@ -989,15 +1010,16 @@ theorem EffC.toBusy {p : Prog} {s : State} {e : Nat} (h : EffC p s e) : BusyC p 
 theorem effLoop_specC {p : Prog} {f : Nat} (hu : UpdOK p (upd p f) f) (hf : p.length < f)
     (hpe : EffOK p) (e : Nat) : ∀ (k : Nat) (s : State), Quiet p s → InvC p s (some e) →
       (s.get e).kind = .eff → BusyC p s e →
-      (k = 0 → (s.get e).chan = true → (s.get e).woken = true) → TopC p (effLoop p f k s e)
-  | 0, s, hq, hc, _, hb, hcw =>
-    ⟨hq, hc.close (fun _ => ⟨hb.vals, hb.quietFlags, hcw rfl, hb.srcClean⟩)⟩
-  | k + 1, s, hq, hc, hk, hb, _ => by
+      (k = 0 → (s.get e).chan = true → (s.get e).woken = true) → SrcStatic p s →
+      TopC p (effLoop p f k s e)
+  | 0, s, hq, hc, _, hb, hcw, hss =>
+    ⟨hq, hc.close (fun _ => ⟨hb.vals, hb.quietFlags, hcw rfl, hb.srcClean⟩), hss⟩
+  | k + 1, s, hq, hc, hk, hb, _, hss => by
     rw [effLoop_succ]
     split
     · next hnc =>
       have hcf : (s.get e).chan = false := by simpa using hnc
-      exact ⟨hq, hc.close (fun _ => ⟨hb.vals, hb.quietFlags, fun h => (by rw [hcf] at h; cases h), hb.srcClean⟩)⟩
+      exact ⟨hq, hc.close (fun _ => ⟨hb.vals, hb.quietFlags, fun h => (by rw [hcf] at h; cases h), hb.srcClean⟩), hss⟩
     · have he : e < s.nodes.length := s.lt_of_kind_ne (by rw [hk]; simp)
       obtain ⟨q1, hk1⟩ := hq.flagEff hk (fun n => { n with chan := false })
         (fun _ => ⟨rfl, rfl, rfl, rfl, rfl, rfl⟩)
@@ -1008,7 +1030,7 @@ theorem effLoop_specC {p : Prog} {f : Nat} (hu : UpdOK p (upd p f) f) (hf : p.le
       have g1f : ∀ y, ((s.upd e fun n => { n with chan := false }).get y).running = (s.get y).running ∧
           ((s.upd e fun n => { n with chan := false }).get y).val = (s.get y).val := by
         intro y; rw [State.get_upd]; split <;> exact ⟨rfl, rfl⟩
-      have hvals1 : RO p e → ((s.upd e fun n => { n with chan := false }).get e).dirty = false →
+      have hvals1 : NoFB p e → ((s.upd e fun n => { n with chan := false }).get e).dirty = false →
           ∀ z ∈ ((s.upd e fun n => { n with chan := false }).get e).seen,
             ((s.upd e fun n => { n with chan := false }).get z.1).running = true ∨
             ((s.upd e fun n => { n with chan := false }).get z.1).val = some z.2.1 := by
@@ -1017,20 +1039,21 @@ theorem effLoop_specC {p : Prog} {f : Nat} (hu : UpdOK p (upd p f) f) (hf : p.le
         rw [(g1f z.1).1, (g1f z.1).2]
         exact hb.vals hro hd z hz
       have hchan1 : ((s.upd e fun n => { n with chan := false }).get e).chan = false := by rw [g1e]
+      have hss1 : SrcStatic p (s.upd e fun n => { n with chan := false }) := hss.updFlag e _ (fun _ => rfl)
       simp only
-      generalize (s.upd e fun n => { n with chan := false }) = s1 at q1 hk1 c1 b1 hvals1 hchan1
+      generalize (s.upd e fun n => { n with chan := false }) = s1 at q1 hk1 c1 b1 hvals1 hchan1 hss1
       split
       · next hp => rw [b1.live.2.1] at hp; cases hp
-      · have post := effUpdate_specC hu (by omega) q1 c1 hk1 hvals1 hchan1
+      · have post := effUpdate_specC hu (by omega) q1 c1 hk1 hvals1 hchan1 hss1
         rw [q1.obs]
         generalize effUpdate p f { s1 with obs := some e } e = r at post
         obtain ⟨s2, need⟩ := r
         simp only at post ⊢
         split
-        · obtain ⟨t4, hk4⟩ := effRun_specC hu hf hpe post.quiet post.conv post.kind post.clean post.cw
+        · obtain ⟨t4, hk4⟩ := effRun_specC hu hf hpe post.quiet post.conv post.kind post.clean post.cw post.ss
           have e4 := t4.conv.eff e hk4 (t4.quiet.idle e) (by simp)
           exact effLoop_specC hu hf hpe e k _ t4.quiet (t4.conv.weaken _) hk4 e4.toBusy
-            (fun _ => e4.chanWoken)
+            (fun _ => e4.chanWoken) t4.ss
         · next hnr =>
           have hneed : need = false := by
             cases need with
@@ -1044,7 +1067,7 @@ theorem effLoop_specC {p : Prog} {f : Nat} (hu : UpdOK p (upd p f) f) (hf : p.le
           have e3 : EffC p ({ s2 with obs := none } : State) e :=
             ⟨fun hro _ => rdy.1 hro, fun _ => ⟨post.clean, hfirst⟩, post.cw, fun _ => rdy.2⟩
           exact effLoop_specC hu hf hpe e k _ post.quiet post.conv post.kind e3.toBusy
-            (fun _ => e3.chanWoken)
+            (fun _ => e3.chanWoken) post.ss
 
 theorem pollEff_specC {p : Prog} (hp : MemoOK p) (hpe : EffOK p) {s : State} {e : Nat} (h : TopC p s)
     (hk : (s.get e).kind = .eff) : TopC p (pollEff p s e) := by
@@ -1074,13 +1097,14 @@ theorem pollEff_specC {p : Prog} (hp : MemoOK p) (hpe : EffOK p) {s : State} {e 
       rw [(g1f y).2.2.2] at hky
       rw [(g1f y).2.2.1]
       exact e0.srcClean hc y hy hky
+  have hss1 : SrcStatic p (s.upd e fun n => { n with woken := false }) := h.ss.updFlag e _ (fun _ => rfl)
   simp only
-  generalize (s.upd e fun n => { n with woken := false }) = s1 at q1 hk1 c1 b1 hb1
+  generalize (s.upd e fun n => { n with woken := false }) = s1 at q1 hk1 c1 b1 hb1 hss1
   split
   · next hal =>
     rw [b1.live.1] at hal; simp at hal
   · exact effLoop_specC (upd_ok hp (fuelFor p)) (by simp [fuelFor]) hpe e 64 s1 q1 c1 hk1 hb1
-      (fun h0 => by cases h0)
+      (fun h0 => by cases h0) hss1
 
 theorem pollNth_specC {p : Prog} (hp : MemoOK p) (hpe : EffOK p) {s : State} (h : TopC p s) (i : Nat) :
     TopC p (pollNth p s i) := by
@@ -1123,7 +1147,7 @@ theorem init_eff_fields (p : Prog) (i : Nat) (hk : ((initState p).get i).kind = 
     cases d <;> simp_all [initNode]
 
 theorem init_topC (p : Prog) : TopC p (initState p) := by
-  refine ⟨init_quiet p, ⟨?_, ?_⟩⟩
+  refine ⟨init_quiet p, ⟨?_, ?_⟩, fun w y hy => by rw [(init_fields p w).1] at hy; cases hy⟩
   · intro i hk _
     have f := init_eff_fields p i hk
     have g := init_fields p i
@@ -1146,7 +1170,8 @@ theorem step_topC {p : Prog} (hp : MemoOK p) (hpe : EffOK p) {s : State}
     · next v0 hx =>
       have hf : s.nodes.length ≤ fuelFor p := by rw [h.quiet.inv.len]; simp [fuelFor]
       obtain ⟨hi, sp⟩ := setSignal_inv h.quiet.inv hx v hf
-      exact ⟨⟨hi, fun i => (sp.running i).trans (h.quiet.idle i)⟩, h.conv.of_set h.quiet.inv hx v hf sp⟩
+      exact ⟨⟨hi, fun i => (sp.running i).trans (h.quiet.idle i)⟩, h.conv.of_set h.quiet.inv hx v hf sp,
+        h.ss.mono (fun w y hy => by rw [setSignal_sources] at hy; exact hy)⟩
     · exact h
   | read m =>
     simp only [step]
@@ -1163,7 +1188,7 @@ theorem step_topC {p : Prog} (hp : MemoOK p) (hpe : EffOK p) {s : State}
       have post := upd_ok hp (fuelFor p) s m h.quiet.inv (by simp only [fuelFor]; omega) (h.quiet.idle m)
         (fun r hr => by rw [h.quiet.idle r] at hr; cases hr)
       exact ⟨⟨post.inv, fun i => (post.running i).trans (h.quiet.idle i)⟩,
-        h.conv.of_upd post (fun o ho' => by rw [h.quiet.obs] at ho'; cases ho')⟩
+        h.conv.of_upd post (fun o ho' => by rw [h.quiet.obs] at ho'; cases ho'), post.ss h.ss⟩
   | poll i => exact pollNth_specC hp hpe h i
   | idle => exact runIdle_specC hp hpe 256 s h
   | pause e => cases ho
@@ -1186,7 +1211,7 @@ theorem run_topC {p : Prog} (hp : MemoOK p) (hpe : EffOK p) (ops : List Op)
 and has seen the current from-scratch value of everything it read -/
 theorem effects_current {p : Prog} (hwf : WF p = true) (ht : bodiesTracked p = true) (ops : List Op)
     (hops : ∀ o ∈ ops, o.plain = true) (hidle : ready (run p ops) = []) (i : Nat)
-    (hk : ((run p ops).get i).kind = .eff) (hro : RO p i) :
+    (hk : ((run p ops).get i).kind = .eff) (hro : NoFB p i) :
     ((run p ops).get i).runs ≠ 0 ∧
     ∀ z ∈ ((run p ops).get i).seen, specVal p (run p ops) z.1 = z.2.1 := by
   have h := run_topC (memoOK_of_wf hwf) (effOK_of_wf hwf ht) ops hops
@@ -1229,7 +1254,7 @@ theorem effects_current {p : Prog} (hwf : WF p = true) (ht : bodiesTracked p = t
 (`chan = false`) it is current -/
 theorem effect_current_of_unnotified {p : Prog} (hwf : WF p = true) (ht : bodiesTracked p = true)
     (ops : List Op) (hops : ∀ o ∈ ops, o.plain = true) (i : Nat)
-    (hk : ((run p ops).get i).kind = .eff) (hro : RO p i) (hch : ((run p ops).get i).chan = false) :
+    (hk : ((run p ops).get i).kind = .eff) (hro : NoFB p i) (hch : ((run p ops).get i).chan = false) :
     ((run p ops).get i).runs ≠ 0 ∧
     ∀ z ∈ ((run p ops).get i).seen, specVal p (run p ops) z.1 = z.2.1 := by
   have h := run_topC (memoOK_of_wf hwf) (effOK_of_wf hwf ht) ops hops
@@ -1253,5 +1278,29 @@ theorem effect_current_of_unnotified {p : Prog} (hwf : WF p = true) (ht : bodies
   rcases hc.vals hro q.1 z hz with h1 | h1
   · rw [h.quiet.idle z.1] at h1; cases h1
   · rw [hv] at h1; exact Option.some.inj h1
+
+/-- in a WF program without self-feedback every effect satisfies the guard `RO` -/
+theorem NoFB.of_noSelfFeedback {p : Prog} (hwf : WF p = true) (hnf : noSelfFeedback p = true) {i : Nat}
+    {b : Expr} (hb : p[i]? = some (.eff b)) : NoFB p i := by
+  intro sg y hw hr
+  have hbo : bodyOf p i = b := by simp only [bodyOf, hb]
+  rw [hbo] at hw hr
+  have hwn := WF_get hwf hb
+  simp only [wfNode, Bool.and_eq_true] at hwn
+  have hi : i < p.length := by
+    rcases Nat.lt_or_ge i p.length with h | h
+    · exact h
+    · rw [List.getElem?_eq_none h] at hb; cases hb
+  have hy : y < p.length := by have := readsNode_lt b i y hwn.1 hr; omega
+  have hsg : sg < p.length := writesSig_lt p b sg hwn.2 hw
+  simp only [noSelfFeedback, List.all_eq_true, List.mem_range] at hnf
+  have := hnf i hi
+  rw [hb] at this
+  simp only [List.all_eq_true, List.mem_range, Bool.or_eq_true, Bool.not_eq_true'] at this
+  rcases this sg hsg with h | h
+  · rw [hw] at h; cases h
+  · rcases h y hy with h' | h'
+    · rw [hr] at h'; cases h'
+    · exact h'
 
 end Leptos.Reactive
